@@ -939,7 +939,9 @@ func (c *Ctx) unreadBeforeRescan(rule string, scan *FuncInfo, clause string) int
 	}
 	info := scan.Pkg.TypesInfo
 	recvT := recvNamed(scan.Obj)
-	isRead := func(fn *types.Func) bool { return fn != nil && fn.Name() == "read" && recvNamed(fn) == recvT && recvT != nil }
+	isRead := func(fn *types.Func) bool {
+		return fn != nil && fn.Name() == "read" && recvNamed(fn) == recvT && recvT != nil
+	}
 	isUnread := func(fn *types.Func) bool {
 		return fn != nil && fn.Name() == "unread" && recvNamed(fn) == recvT && recvT != nil
 	}
@@ -1039,7 +1041,7 @@ func recvNamed(fn *types.Func) *types.Named {
 // traversal that follows left->right then lose that part). Writes that are known not to need it
 // are listed with the reason.
 var rootWriteExempt = map[string]string{
-	"tree.Tree.SetRoot":   "the setter itself; callers are the constructors and the functions below",
+	"tree.Tree.SetRoot": "the setter itself; callers are the constructors and the functions below",
 }
 
 func (c *Ctx) rootWrites(rule string, clause string) int {
